@@ -77,6 +77,9 @@ def run():
         steps += [{"a": "closeUp", "g": "S", "obj": "U1", "wait": True, "ctxMs": 3000}, {"a": "quiesce"}, {"a": "closeConn", "g": "main2", "wait": True, "ctxMs": 2000}]
         scs.append({"id": "C20/abandonedFlush/%d" % k, "kind": "iscp", "conn": {}, "steps": steps,
                     "p": {"policy": "none", "thr": THR * U.UNIT, "intervalMs": 0, "seqMode": False}})
+    for sc in scs:
+        if sc.get("kind") == "iscp":
+            sc["steps"] = [{"a": "stallWatch"}] + sc["steps"] + [{"a": "stallWatch", "mode": "off"}]
     trace = ctx.run_scenarios(scs, "c20", par=16)
     # timed family (interval policies), low parallelism
     tscs = []
@@ -109,6 +112,8 @@ def run():
                      {"a": "closeConn", "g": "main2", "wait": True, "ctxMs": 2000}]
             tscs.append({"id": "C20/timedmix/%s/%d" % (pol, k), "kind": "iscp", "conn": {}, "steps": steps,
                          "p": {"policy": pol, "thr": THR * U.UNIT, "intervalMs": ms, "seqMode": False}})
+    for sc in tscs:     # timed scenarios: scheduling stalls of a loaded machine are recorded and added to the interval bound
+        sc["steps"] = [{"a": "stallWatch"}] + sc["steps"] + [{"a": "stallWatch", "mode": "off"}]
     ttrace = ctx.run_scenarios(tscs, "c20t", par=4)
     verdicts, _ = ctx.validate(trace, "MonC20")
     ctx.judge(scs, trace, verdicts)
